@@ -680,6 +680,51 @@ def r75_measures_invariant(ctx, res):
     res.count("measure methods confirmed translation invariant", n)
 
 
+def r76_item_access_plain(ctx, res):
+    """R7.6: the component-wise translation `self.F[i] += v[i]` (and coordinate assignment in general) goes through
+    Vector.__setitem__ / __getitem__: they must store / read the element as it is -- a conversion of the stored value
+    (int(..), type(old)(..), round(..)) loses part of the translation"""
+    n = 0
+    c = ctx.repo.cls("Vector")
+    for mname in ("__setitem__", "__getitem__"):
+        m = c.lookup(mname)
+        if m is None:
+            continue
+        n += 1
+        body = [s_ for s_ in m.node.body if not (isinstance(s_, ast.Expr) and isinstance(s_.value, ast.Constant))]
+        sn = m.self_name
+        if mname == "__setitem__" and len(m.params) == 3:
+            item, value = m.params[1], m.params[2]
+            stores = [s_ for s_ in walk_local(m.node) if isinstance(s_, (ast.Assign, ast.AugAssign))]
+            ok_form = len(stores) == 1 and isinstance(stores[0], ast.Assign) and len(stores[0].targets) == 1 \
+                and isinstance(stores[0].targets[0], ast.Subscript) and txt(stores[0].targets[0].slice) == item \
+                and isinstance(stores[0].targets[0].value, ast.Attribute) and txt(stores[0].targets[0].value.value) == sn
+            if not ok_form:
+                raise AnalysisError("%s: Vector.__setitem__ is not a single element store" % m.where())
+            v = stores[0].value
+            plain = isinstance(v, ast.Name) and v.id == value
+            res.ob("R7.6", m.where(stores[0]), "Vector.__setitem__ stores the value as given", plain,
+                   "`%s`" % txt(stores[0])[:60])
+            if not plain:
+                if not any(isinstance(x, ast.Name) and x.id == value for x in ast.walk(v)):
+                    why = "the stored expression `%s` does not contain the value" % txt(v)[:40]
+                else:
+                    why = "the value is converted on the way: `%s`" % txt(v)[:50]
+                res.violation("R7.6", m, stores[0],
+                              "Vector.__setitem__ does not store the value it is given (%s). Line.move translates the support vector "
+                              "component by component (`self.sv[i] += v[i]`): a converted component (an int support vector truncates "
+                              "the fractional part of the move) leaves the line at a position that is not the translated one"
+                              % why, construct="Vector.__setitem__ converts the stored value")
+        elif mname == "__getitem__" and len(m.params) == 2:
+            rets = [r for r in walk_local(m.node) if isinstance(r, ast.Return)]
+            plain = len(rets) == 1 and isinstance(rets[0].value, ast.Subscript) and txt(rets[0].value.slice) == m.params[1] \
+                and isinstance(rets[0].value.value, ast.Attribute) and txt(rets[0].value.value.value) == sn
+            if not plain:
+                raise AnalysisError("%s: Vector.__getitem__ is not a plain element read" % m.where())
+            res.ob("R7.6", m.where(rets[0]), "Vector.__getitem__ reads the element as it is", True, "`%s`" % txt(rets[0])[:60])
+    ctx.require(res, "R7.6", n, 2, "item access methods of Vector")
+
+
 def run(ctx, res):
     res.explanation = (
         "Forward must-dataflow over the CFG of each of the 7 move() methods from the accepting edge of the "
@@ -705,5 +750,6 @@ def run(ctx, res):
     r74_single_translation(ctx, res)
     notes_r74(ctx, res)
     r75_measures_invariant(ctx, res)
+    r76_item_access_plain(ctx, res)
     res.undecided_ob("move(v) then move(-v) restores an equal object (floating point); measures of the function volume() "
                      "(it goes through distance / intersection)")
